@@ -44,12 +44,13 @@ RefPreAt(k, name) ==
              ELSE InhPre(Stmt(k).bases, name, [has |-> FALSE, free |-> FALSE, groups |-> <<>>])
   IN IF ~inh.has THEN (IF own = <<>> THEN True_ ELSE [kind |-> "dnf", groups |-> <<own>>])
      ELSE IF inh.free THEN True_                         \* an ancestor accepts every call
-     ELSE [kind |-> "dnf", groups |-> inh.groups \o (IF own = <<>> THEN <<>> ELSE <<own>>)]
+     \* (an own group that lists the very contracts of an inherited group - shared decorator objects - is that group)
+     ELSE [kind |-> "dnf", groups |-> Dedup(inh.groups \o (IF own = <<>> THEN <<>> ELSE <<own>>))]
 
 RECURSIVE RefPost(_, _), RefPostAt(_, _), InhPost(_, _)
 RefPost(k, name) == LET p == ProviderOf(k, name) IN IF NoSuch(p, name) THEN <<>> ELSE RefPostAt(p, name)
 InhPost(bases, name) == IF bases = <<>> THEN <<>> ELSE Dedup(RefPost(Head(bases), name) \o InhPost(Tail(bases), name))
-RefPostAt(k, name) == (IF IsCtor(name) THEN <<>> ELSE InhPost(Stmt(k).bases, name)) \o OwnPost(k, name)
+RefPostAt(k, name) == Dedup((IF IsCtor(name) THEN <<>> ELSE InhPost(Stmt(k).bases, name)) \o OwnPost(k, name))
 
 RECURSIVE RefSnap(_, _), RefSnapAt(_, _), InhSnap(_, _)
 RefSnap(k, name) == LET p == ProviderOf(k, name) IN IF NoSuch(p, name) THEN <<>> ELSE RefSnapAt(p, name)
